@@ -357,8 +357,8 @@ pub fn parse_proj(definition: &str) -> Result<String, Error> {
                 .iter()
                 .filter(|x| x.as_str() != "inv")
                 .map(|x| match x.as_str() {
-                    "omit_fwd" => "omit_inv",
-                    "omit_inv" => "omit_fwd",
+                    "omit_fwd" if pipeline_is_inverted => "omit_inv",
+                    "omit_inv" if pipeline_is_inverted => "omit_fwd",
                     _ => x,
                 })
                 .map(|x| x.to_string())
